@@ -1080,7 +1080,14 @@ def run_passthrough_case(ctx, case, n):
         if ans.get("error") != real.get("error"):
             ctx.disagree("c09.passthrough (outcome)", dict(case, **g), real.get("error", "ok"), ans.get("error", "ok"))
         return
-    exp = [T.passthrough_line(i % 1000000, g["file"][i % 1000000], i >= 1000000) for out in ans["outs"] for i in out]
+    # the stale `_unprocessed_record` that a repeated call yields again is the SAME pysam object an earlier `write` modified in
+    # place (the model's records are values): a record once handed to `write` stays modified
+    exp, touched = [], set()
+    for out in ans["outs"]:
+        for i in out:
+            if i >= 1000000:
+                touched.add(i % 1000000)
+            exp.append(T.passthrough_line(i % 1000000, g["file"][i % 1000000], (i % 1000000) in touched))
     if exp != real["body"]:
         ctx.disagree("c09.passthrough", dict(case, **g), real["body"], exp)
     # oracle (no model): on a plan that visits every contig once in file order the records of a write_unchanged contig come
